@@ -47,6 +47,18 @@ fn digest(p: &mut Pkg) -> u64 {
     h ^ fnv(&[]) as u64
 }
 
+/// the string pool as the hook reports it: a refused statement must leave every entry and count as it was
+fn pool_digest(p: &Pkg) -> u64 {
+    let mut h: u64 = 0xcbf29ce484222325;
+    for (text, rc) in p.verif_snapshot().pool.iter() {
+        for &x in text.as_bytes().iter().chain(rc.to_le_bytes().iter()).chain(b"|".iter()) {
+            h ^= x as u64;
+            h = h.wrapping_mul(0x100000001b3);
+        }
+    }
+    h
+}
+
 fn fresh() -> Pkg {
     Package::create(PackageType::Installer, Medium::new(Vec::new())).expect("create")
 }
@@ -58,10 +70,48 @@ fn reopen(p: Pkg) -> Result<Pkg, String> {
 struct Out {
     lines: Vec<J>,
 }
+
+/// exact accounting at real scale (C08 at the count limit): the saved bytes decoded independently; for every pool
+/// entry holding `text`, its count and the number of cells that refer to it
+fn accounting(p: &mut Pkg, med: &Medium, how: &str, text: &str) -> J {
+    let r = catch_unwind(AssertUnwindSafe(|| -> Result<J, String> {
+        p.flush().map_err(|e| e.to_string())?;
+        let bytes = med.snap();      // the medium is shared: a second handle reads what the flush left
+        let img = crate::codec::decode(&bytes, None)?;
+        let mut uses: std::collections::HashMap<u32, u64> = Default::default();
+        for t in &img.tables {
+            for row in &t.rows {
+                for c in row {
+                    if let crate::codec::Cell::Ref(k) = c {
+                        *uses.entry(*k).or_insert(0) += 1;
+                    }
+                }
+            }
+        }
+        let mut entries = Vec::new();
+        let mut stale = 0u64;
+        for (i, (t, rc, raw)) in img.pool.iter().enumerate() {
+            let k = i as u32 + 1;
+            if t == text {
+                entries.push(json!({"rc": rc, "cells": uses.get(&k).cloned().unwrap_or(0)}));
+            }
+            if *rc == 0 && !raw.is_empty() {
+                stale += 1;
+            }
+        }
+        Ok(json!({"limit": "refcount", "how": how, "entries": entries, "stale": stale}))
+    }));
+    match r {
+        Ok(Ok(j)) => j,
+        Ok(Err(e)) => json!({"limit": "refcount", "how": how, "entries": [], "stale": 0, "error": e}),
+        Err(_) => json!({"limit": "refcount", "how": how, "entries": [], "stale": 0, "error": "panic"}),
+    }
+}
 impl Out {
     /// runs `op` on the package, then records verdict data
     fn step<F: FnOnce(&mut Pkg) -> std::io::Result<()>>(&mut self, mut p: Pkg, limit: &str, how: &str, n: u64, op: F) -> Pkg {
         let before = digest(&mut p);
+        let pool_before = pool_digest(&p);
         let r = catch_unwind(AssertUnwindSafe(|| op(&mut p)));
         let res = match &r {
             Ok(Ok(())) => "Ok",
@@ -73,12 +123,13 @@ impl Out {
             return fresh();
         }
         let after = digest(&mut p);
+        let pool_same = pool_digest(&p) == pool_before;
         // save + reopen: the library must be able to read what it wrote
         let ro = catch_unwind(AssertUnwindSafe(|| reopen(p)));
         let (reopen_res, p2, same) = match ro {
             Ok(Ok(mut q)) => {
                 let d = digest(&mut q);
-                let same = if res == "Err" { after == before && d == before } else { d == after };
+                let same = if res == "Err" { after == before && d == before && pool_same } else { d == after };
                 ("Ok", q, same)
             }
             Ok(Err(_)) => ("Err", fresh(), false),
@@ -99,9 +150,42 @@ fn rows(from: i32, to: i32) -> Vec<Vec<Value>> {
     (from..to).map(|k| vec![Value::Int(k), Value::Int(k % 7)]).collect()
 }
 
+/// exact accounting at the COUNT limit: 65535 cells share one string (one saturated entry), one more cell opens a
+/// second entry; releasing cells of either entry, re-assigning, dropping: after every save each entry's count equals
+/// the number of cells that refer to it (Trace_Limits: PoolWF on the entries of that string)
+fn refcount_scenarios(o: &mut Out) {
+    let med = Medium::new(Vec::new());
+    let mut p = Package::create(PackageType::Installer, med.handle()).expect("create");
+    p.create_table("D", vec![Column::build("K").primary_key().int32(), Column::build("A").nullable().string(0), Column::build("B").nullable().string(0), Column::build("C").nullable().string(0)]).unwrap();
+    let sat: Vec<Vec<Value>> = (0..21845).map(|k| vec![Value::Int(k), Value::Str("sat".into()), Value::Str("sat".into()), Value::Str("sat".into())]).collect();
+    p.insert_rows(Insert::into("D").rows(sat)).unwrap();
+    o.lines.push(accounting(&mut p, &med, "65535 cells", "sat"));
+    p.insert_rows(Insert::into("D").row(vec![Value::Int(50000), Value::Str("sat".into()), Value::Str("sat".into()), Value::Null])).unwrap();
+    o.lines.push(accounting(&mut p, &med, "65537 cells: a second entry", "sat"));
+    p.delete_rows(Delete::from("D").with(Expr::col("K").eq(Expr::integer(0)))).unwrap();
+    o.lines.push(accounting(&mut p, &med, "a row of the saturated entry deleted", "sat"));
+    p.update_rows(msi::Update::table("D").set("A", Value::Str("other".into())).with(Expr::col("K").eq(Expr::integer(1)))).unwrap();
+    o.lines.push(accounting(&mut p, &med, "a cell of the saturated entry re-assigned", "sat"));
+    p.update_rows(msi::Update::table("D").set("B", Value::Null).with(Expr::col("K").eq(Expr::integer(50000)))).unwrap();
+    o.lines.push(accounting(&mut p, &med, "a cell of the second entry released", "sat"));
+    p.insert_rows(Insert::into("D").row(vec![Value::Int(50001), Value::Str("sat".into()), Value::Null, Value::Null])).unwrap();
+    o.lines.push(accounting(&mut p, &med, "one more reference after releases", "sat"));
+    p.drop_table("D").unwrap();
+    o.lines.push(accounting(&mut p, &med, "table dropped", "sat"));
+}
+
 pub fn main(args: &Args) -> i32 {
     let with_strings = args.get("no-strings").is_none();
     let mut o = Out { lines: Vec::new() };
+    if args.get("refcount-only").is_some() {
+        refcount_scenarios(&mut o);
+        let mut f = std::io::BufWriter::new(std::fs::File::create(args.get("trace").expect("--trace")).expect("trace"));
+        for l in &o.lines {
+            let _ = writeln!(f, "{}", l);
+        }
+        println!("LIMITS {}", json!({"scenarios": o.lines.len()}));
+        return 0;
+    }
     // --- columns: 31 / 32 / 33
     for n in [1usize, 31, 32, 33, 40] {
         let p = fresh();
@@ -142,6 +226,16 @@ pub fn main(args: &Args) -> i32 {
         p = o.step(p, "rows", "after deletion freed 10", 65536, |p| p.insert_rows(Insert::into("R").rows(rows(80000, 80010))));
         let _ = o.step(p, "rows", "after deletion, one more", 65537, |p| p.insert_rows(Insert::into("R").rows(rows(90000, 90001))));
     }
+    // a statement refused at the ROW limit whose rows carry new strings: the pool stays as it was
+    {
+        let mut p = fresh();
+        p.create_table("R", vec![Column::build("K").primary_key().int32(), Column::build("V").nullable().string(0)]).unwrap();
+        p.insert_rows(Insert::into("R").rows((0..65536).map(|k| vec![Value::Int(k), Value::Null]).collect())).unwrap();
+        p = o.step(p, "rows", "refused at the limit, the rows carry new strings", 65538, |p| {
+            p.insert_rows(Insert::into("R").rows(vec![vec![Value::Int(70000), Value::Str("left behind?".into())], vec![Value::Int(70001), Value::Str("and this".into())]]))
+        });
+        let _ = o.step(p, "rows", "update at the limit stays possible", 65536, |p| p.update_rows(msi::Update::table("R").set("V", Value::Str("x".into())).with(Expr::col("K").lt(Expr::integer(3)))));
+    }
     // --- distinct strings addressable by two-byte references
     if with_strings {
         let scols = || vec![Column::build("K").primary_key().int32(), Column::build("V").nullable().string(0)];
@@ -167,6 +261,43 @@ pub fn main(args: &Args) -> i32 {
         p = o.step(p, "strings", "after deletion freed 4 entries", 65535, |p| p.insert_rows(Insert::into("S").rows(srows(300000, 300004))));
         p = o.step(p, "strings", "after deletion, one more", 65536, |p| p.insert_rows(Insert::into("S").rows(srows(400000, 400001))));
         let _ = o.step(p, "strings", "update of the only user of a string at the limit", 65535, |p| p.update_rows(msi::Update::table("S").set("V", Value::Str("replacement".into())).with(Expr::col("K").eq(Expr::integer(300000)))));
+        // more than 65535 references to ONE new string in a single statement need a second entry (the count of an
+        // entry stops at 65535): with room for one entry only, the statement must be refused, not die half-way
+        let mut p = fresh();
+        p.create_table("D", vec![Column::build("K").primary_key().int32(), Column::build("A").nullable().string(0), Column::build("B").nullable().string(0)]).unwrap();
+        p.create_table("S", scols()).unwrap();
+        let used2 = p.verif_snapshot().pool.len() as i32;
+        p.insert_rows(Insert::into("S").rows(srows(0, 65534 - used2))).unwrap();
+        let dup: Vec<Vec<Value>> = (0..32768).map(|k| vec![Value::Int(k), Value::Str("dup".into()), Value::Str("dup".into())]).collect();
+        let _ = o.step(p, "strings", "65536 references to one new string with room for one entry", 65536, |p| p.insert_rows(Insert::into("D").rows(dup)));
+        // create_table writes three catalog tables: with room for the strings of the first two only, nothing may be created
+        let mut p = fresh();
+        p.create_table("S", scols()).unwrap();
+        let used3 = p.verif_snapshot().pool.len() as i32;
+        p.insert_rows(Insert::into("S").rows(srows(0, 65535 - 2 - used3))).unwrap();
+        p = o.step(p, "strings", "create_table whose last catalog insert finds the pool full", 65536, |p| {
+            p.create_table("Zz", vec![Column::build("K").primary_key().int16(), Column::build("Cq").nullable().enum_values(&["qq", "rr"]).string(8)])
+        });
+        let _ = o.step(p, "strings", "create_table that just fits", 65535, |p| {
+            p.create_table("Zy", vec![Column::build("K").primary_key().int16()])
+        });
+        // a string whose only entry is saturated (65535 references) needs a NEW entry for one more reference: with the
+        // pool full the statement must be refused
+        let mut p = fresh();
+        p.create_table("D", vec![Column::build("K").primary_key().int32(), Column::build("A").nullable().string(0), Column::build("B").nullable().string(0), Column::build("C").nullable().string(0)]).unwrap();
+        p.create_table("S", scols()).unwrap();
+        let sat: Vec<Vec<Value>> = (0..21845).map(|k| vec![Value::Int(k), Value::Str("sat".into()), Value::Str("sat".into()), Value::Str("sat".into())]).collect();
+        p.insert_rows(Insert::into("D").rows(sat)).unwrap();
+        let used4 = p.verif_snapshot().pool.len() as i32;
+        p.insert_rows(Insert::into("S").rows(srows(0, 65535 - used4))).unwrap();
+        p = o.step(p, "strings", "one more reference to a saturated string, pool full", 65536, |p| {
+            p.insert_rows(Insert::into("D").row(vec![Value::Int(900000), Value::Str("sat".into()), Value::Null, Value::Null]))
+        });
+        let _ = p.delete_rows(Delete::from("S").with(Expr::col("K").eq(Expr::integer(3))));
+        let _ = o.step(p, "strings", "one more reference to a saturated string, one entry free", 65535, |p| {
+            p.insert_rows(Insert::into("D").row(vec![Value::Int(900000), Value::Str("sat".into()), Value::Null, Value::Null]))
+        });
+        refcount_scenarios(&mut o);
         // a free entry BEFORE a string that the same statement re-uses: the statement needs one entry for its
         // one new string and exactly one is free (a first-fit allocator that duplicates the re-used string runs out)
         let mut p = fresh();
